@@ -30,6 +30,8 @@ func (o roImg) ColorModel() color.Model { return o.inner.ColorModel() }
 func (o roImg) Bounds() image.Rectangle { return o.inner.Bounds() }
 func (o roImg) At(x, y int) color.Color { return o.inner.At(x, y) }
 
+var forceStructured bool
+
 var srcKinds = []string{"rgba64", "nrgba64", "rgba", "nrgba", "ycbcr444", "ycbcr422", "ycbcr420", "ycbcr440", "ycbcr411", "ycbcr410", "gray", "gray16", "cmyk", "paletted", "opaque"}
 var dstKinds = []string{"rgba64", "rgba", "nrgba", "nrgba64", "opaque"}
 
@@ -40,6 +42,31 @@ func newSource(rg *rng, kind string, r image.Rectangle) image.Image {
 	fill := func(p []uint8) {
 		for i := range p {
 			p[i] = byte(rg.next())
+		}
+	}
+	// one source in three is "structured": runs of pixels with the same colour (flat fills), the
+	// alpha changing inside a run or not; colours low and alphas high so that premultiplied stores
+	// stay valid without touching the colour
+	structured := rg.intn(3) == 0 || forceStructured
+	runs := func(p []uint8, bpp int) {
+		if !structured {
+			return
+		}
+		cb := bpp / 4 * 3
+		for i := 0; i+bpp <= len(p); i += bpp {
+			if i >= bpp && rg.intn(5) != 0 {
+				copy(p[i:i+cb], p[i-bpp:i-bpp+cb])
+				if rg.intn(3) == 0 {
+					copy(p[i+cb:i+bpp], p[i-bpp+cb:i]) // identical pixel
+				}
+			}
+			if bpp == 4 {
+				p[i], p[i+1], p[i+2] = p[i]&0x3f, p[i+1]&0x3f, p[i+2]&0x3f
+				p[i+3] |= 0x40
+			} else {
+				p[i], p[i+2], p[i+4] = p[i]&0x3f, p[i+2]&0x3f, p[i+4]&0x3f
+				p[i+6] |= 0x40
+			}
 		}
 	}
 	premul8 := func(p []uint8) {
@@ -68,20 +95,24 @@ func newSource(rg *rng, kind string, r image.Rectangle) image.Image {
 	case "rgba64":
 		m := image.NewRGBA64(outer)
 		fill(m.Pix)
+		runs(m.Pix, 8)
 		premul16(m.Pix)
 		return m.SubImage(r)
 	case "nrgba64":
 		m := image.NewNRGBA64(outer)
 		fill(m.Pix)
+		runs(m.Pix, 8)
 		return m.SubImage(r)
 	case "rgba":
 		m := image.NewRGBA(outer)
 		fill(m.Pix)
+		runs(m.Pix, 4)
 		premul8(m.Pix)
 		return m.SubImage(r)
 	case "nrgba":
 		m := image.NewNRGBA(outer)
 		fill(m.Pix)
+		runs(m.Pix, 4)
 		return m.SubImage(r)
 	case "gray":
 		m := image.NewGray(outer)
@@ -108,6 +139,7 @@ func newSource(rg *rng, kind string, r image.Rectangle) image.Image {
 	case "opaque":
 		m := image.NewNRGBA64(outer)
 		fill(m.Pix)
+		runs(m.Pix, 8)
 		return roImg{m.SubImage(r)}
 	}
 	// the standard library's chroma-plane arithmetic is wrong for negative coordinates (integer
@@ -305,7 +337,7 @@ func c10Case(c *corrCtx, r *rng, class string, src image.Image, sb image.Rectang
 	c10CaseX(c, r, class, src, sb, dk, dOrigin, x, n, inPlace, r.intn(2) == 0)
 }
 
-func c10CaseX(c *corrCtx, r *rng, class string, src image.Image, sb image.Rectangle, dk string, dOrigin image.Point, x xform, n int, inPlace bool, exact bool) {
+func c10CaseX(c *corrCtx, r *rng, class string, src image.Image, sb image.Rectangle, dk string, dOrigin image.Point, x xform, n int, inPlace bool, exact bool) draw.Image {
 	d := newDestX(r, dk, dOrigin, sb.Size(), exact)
 	if inPlace {
 		// the destination itself is the source: make its bounds exactly the source size
@@ -342,8 +374,8 @@ func c10CaseX(c *corrCtx, r *rng, class string, src image.Image, sb image.Rectan
 	c.mark(fmt.Sprintf("TransformImageColor class=%s transform=%s parallelism=%d src_bounds=%v src_type=%T dst_bounds=%v dst_type=%T dst_stride=%d dst_start=%d in_place=%v",
 		class, x.name, n, sb, src, db, d.img, d.stride, d.start, inPlace))
 	if p := safeTransform(run); p != nil {
-		c.direct(fmt.Sprintf("C10/panic/%s/%s/n%d", class, x.name, n), "image transform panics", map[string]interface{}{"panic": fmt.Sprint(p), "src": sb.String(), "dst": db.String()})
-		return
+		c.direct(fmt.Sprintf("%s/panic/%s/%s/n%d", c.id, class, x.name, n), "image transform panics", map[string]interface{}{"panic": fmt.Sprint(p), "src": sb.String(), "dst": db.String()})
+		return nil
 	}
 	c.emit(class+"/"+x.name, fmt.Sprintf("img %s %d %d %d %d %d %s %s %s", d.kind, d.stride, d.start, sb.Dx(), sb.Dy(), n, x.name, hexs(before), hexs(table)),
 		fmt.Sprintf("%d:%016x", len(d.parent), fnvBytes(d.parent)))
@@ -356,9 +388,10 @@ func c10CaseX(c *corrCtx, r *rng, class string, src image.Image, sb image.Rectan
 				break
 			}
 		}
-		c.direct(fmt.Sprintf("C10/%s/%s/n%d/%dx%d", class, x.name, n, sb.Dx(), sb.Dy()), "destination differs from per-pixel Set of the transformed source pixels (or bytes outside were touched)",
+		c.direct(fmt.Sprintf("%s/%s/%s/n%d/%dx%d", c.id, class, x.name, n, sb.Dx(), sb.Dy()), "destination differs from per-pixel Set of the transformed source pixels (or bytes outside were touched)",
 			map[string]interface{}{"src_bounds": sb.String(), "dst_bounds": db.String(), "parallelism": n, "transform": x.name, "first_diff_byte": at, "stride": d.stride, "start": d.start, "in_place": inPlace})
 	}
+	return d.img
 }
 
 func newDestExact(rg *rng, kind string, origin image.Point, size image.Point) dstCase {
